@@ -1,1 +1,51 @@
-import EoNVerif.Model.Gillespie
+import EoNVerif.Props.C01
+/-!
+C02 — `Gillespie_SIS`.  The model is the same parametrised one (`P.sis = true`); the theorems of `Props/C01` are
+stated for both variants.  This file instantiates them for SIS and adds the SIS-specific facts: a recovering node
+returns to `S` (and can be reinfected by the same or another neighbour: it re-enters the candidate link list for each
+infectious neighbour), and no node is ever `R`.
+-/
+namespace Gillespie
+
+/-- SIS: invariant for every tape prefix -/
+theorem gSIS_run_inv (P : GParams) (hsis : P.sis = true) (h : WF P) (infs : List Node) (tmin : Rat) (tmax : ERat)
+    (fuel cfuel : Nat) (hi : infs.Nodup) (him : ∀ u ∈ infs, u ∈ P.nodes) (ts ts' : TapeSt) (s' : GState)
+    (hrun : run P infs [] tmin tmax fuel cfuel ts = .ok (s', ts')) : Inv P s' :=
+  run_inv P h infs [] tmin tmax fuel cfuel hi him (by simp) (by simp) (fun _ => rfl) ts ts' s' hrun
+
+/-- SIS: a recovering node becomes susceptible again and is immediately a candidate target of each of its
+infectious neighbours (reinfection by the same or other neighbours) -/
+theorem gSIS_recover_reenters (P : GParams) (hsis : P.sis = true) (h : WF P) (s : GState) (hs : Inv P s)
+    (u : Node) (t : Rat) (hu : u ∈ s.inf.items) :
+    ∃ s', applyRec P s u t = some s' ∧ s'.status u = St.S ∧
+      ∀ v, v ∈ P.nodes → s.status v = St.I → v ≠ u → u ∈ P.nbrs v → (v, u) ∈ s'.links.items := by
+  obtain ⟨s', h1, h2, h3⟩ := applyRec_inv P h s hs u t hu
+  refine ⟨s', h1, ?_, ?_⟩
+  · rw [h3]; simp [Chain.apply, fset, hsis]
+  · intro v hv hvI hne hnb
+    rw [h2.link_items]
+    refine ⟨hv, ?_, hnb, ?_⟩
+    · rw [h3]; simp [Chain.apply, fset, hne, hvI]
+    · rw [h3]; simp [Chain.apply, fset, hsis]
+
+/-- SIS: clock and jump law (instances of the general theorems) -/
+theorem gSIS_clock (P : GParams) (_hsis : P.sis = true) (h : WF P) (s : GState) (hs : Inv P s) :
+    totalRate P s = Chain.totalRate P s.status := clock_eq P h s hs
+
+theorem gSIS_jump_law_trans (P : GParams) (_hsis : P.sis = true) (h : WF P) (s : GState) (hs : Inv P s)
+    (hpos : 0 < totalRate P s) (u v : Node) (huv : (u, v) ∈ s.links.items) (k : Nat) (hk : 0 < k) :
+    Dist.mass (pickDist P s k) (fun o => o == some (GEvent.transmit u v)) =
+      Chain.edgeRate P u v / Chain.totalRate P s.status *
+        (if s.links.weighted then 1 - s.links.rejProb ^ k else 1) := jump_law_trans P h s hs hpos u v huv k hk
+
+theorem gSIS_jump_law_rec (P : GParams) (_hsis : P.sis = true) (h : WF P) (s : GState) (hs : Inv P s)
+    (hpos : 0 < totalRate P s) (u : Node) (hu : u ∈ s.inf.items) (k : Nat) (hk : 0 < k) :
+    Dist.mass (pickDist P s k) (fun o => o == some (GEvent.recover u)) =
+      Chain.nodeRate P u / Chain.totalRate P s.status *
+        (if s.inf.weighted then 1 - s.inf.rejProb ^ k else 1) := jump_law_rec P h s hs hpos u hu k hk
+
+/-- SIS never produces a recovered node -/
+theorem gSIS_no_R (P : GParams) (hsis : P.sis = true) (s : GState) (hs : Inv P s) (u : Node) : s.status u ≠ St.R :=
+  hs.sis_noR hsis u
+
+end Gillespie
